@@ -226,8 +226,8 @@ fn weight(b: &BodyCtx, p: &Params) -> u64 {
 #[derive(Default)]
 struct Local {
     evaluations: u64,
-    classes: HashSet<u64>,
     nontrivial: HashSet<u64>,
+    nontrivial_evals: u64,
     violations: BTreeMap<(String, String), Violation>,
     violating: u64,
     per_set: BTreeMap<&'static str, u64>,
@@ -246,16 +246,15 @@ fn class_of(b: &BodyCtx, t: &TruncCtx, p: &Params, obs: &Observation) -> (u64, b
     let mut s = String::new();
     let mut nontrivial = false;
     if let (Some(spec), Some(g)) = (&b.spec, &b.gen) {
-        s.push_str(&format!("{:?}/{}/{}/{}/{}|", spec.flavour, spec.boundary, spec.pre, spec.epi, spec.fields.len()));
+        s.push_str(&format!("{:?}/{}/{}|", spec.flavour, spec.boundary, spec.fields.len()));
         let mut mark = |off: usize, tag: &str, s: &mut String| {
             let (k, part, rel, inside) = g.region_of_cut(off);
-            let f = spec.fields.get(part).or_else(|| part.checked_sub(1).and_then(|q| spec.fields.get(q)));
-            let prev = part.checked_sub(1).and_then(|q| spec.fields.get(q));
-            s.push_str(&format!(
-                "{tag}{k:?}.{part}.{rel}.{inside}.{:?}.{:?};",
-                f.map(|f| (f.content, f.cl)),
-                prev.map(|f| (f.content, f.cl))
-            ));
+            // the field whose bytes surround the position: for a delimiter the part it ends
+            let f = match k {
+                gen::RegionKind::Delimiter => part.checked_sub(1).and_then(|q| spec.fields.get(q)),
+                _ => spec.fields.get(part),
+            };
+            s.push_str(&format!("{tag}{k:?}.{part}.{rel}.{inside}.{:?};", f.map(|f| (f.content, f.cl))));
             if inside && matches!(k, gen::RegionKind::Delimiter | gen::RegionKind::Headers | gen::RegionKind::Preamble) {
                 nontrivial = true;
             }
@@ -276,10 +275,8 @@ fn class_of(b: &BodyCtx, t: &TruncCtx, p: &Params, obs: &Observation) -> (u64, b
         s.push_str(&hex(&b.bytes));
         s.push_str(&format!("{:?}{:?}", p.cuts, p.trunc));
     }
-    s.push_str(&format!(
-        "|{}{}{:?}{:x}{:?}{:?}{}|",
-        p.all1 as u8, p.pend_all as u8, p.end, p.pend_mask, p.prog, p.limit, p.env_first as u8
-    ));
+    let pend = if p.pend_all { "all" } else if p.pend_mask == 0 { "none" } else { "some" };
+    s.push_str(&format!("|{}{}{:?}{:?}{:?}|", p.all1 as u8, pend, p.end, p.prog, p.limit));
     s.push_str(&oracle::outcome_shape(obs));
     (mc_core::fnv_str(&s), nontrivial)
 }
@@ -374,8 +371,8 @@ fn main() {
 
     let mut rep = Reporter::new("C15");
     let mut evaluations = 0u64;
-    let mut classes = HashSet::new();
     let mut nontrivial = HashSet::new();
+    let mut nontrivial_evals = 0u64;
     let mut per_set: BTreeMap<&'static str, u64> = BTreeMap::new();
     let mut samples = Vec::new();
     let mut violating = 0;
@@ -386,8 +383,8 @@ fn main() {
     let mut outcome_kinds: BTreeMap<String, u64> = BTreeMap::new();
     for l in locals {
         evaluations += l.evaluations;
-        classes.extend(l.classes);
         nontrivial.extend(l.nontrivial);
+        nontrivial_evals += l.nontrivial_evals;
         for (k, v) in l.per_set {
             *per_set.entry(k).or_default() += v;
         }
@@ -420,11 +417,11 @@ fn main() {
     let wall_s = start.elapsed().as_secs_f64();
     let mut ev = Evidence::new("C15", &args.tier, "fault_enumeration");
     ev.set("evaluations", evaluations);
-    ev.set("distinct_observation_classes", classes.len() as u64);
+    ev.set("evaluations_with_a_cut_or_truncation_inside_delimiter_headers_or_preamble", nontrivial_evals);
     ev.set("distinct_nontrivial", nontrivial.len() as u64);
     ev.set(
         "rule",
-        "explicit cartesian enumeration (no sampling) of the sets listed under 'sets': body grammar x chunking (whole, every 1-cut, every 2-cut, all-1-byte) x Pending positions x truncation offset x end kind x consumer program x buffer limit, each executed against the real actix_multipart::Multipart under a wake-driven executor. A class is (body shape, region+relative offset of every cut and of the truncation point, delivery mode, Pending mask, consumer program, limit, outcome shape); it is non-trivial when at least one cut or the truncation point falls strictly inside a delimiter line (CRLF--boundary[--]CRLF), a header block or the preamble. distinct_nontrivial counts distinct non-trivial classes (hash set, measured).",
+        "explicit cartesian enumeration (no sampling) of the sets listed under 'sets': body grammar x chunking (whole, every 1-cut, every 2-cut, all-1-byte) x Pending positions x truncation offset x end kind x consumer program x buffer limit, each executed against the real actix_multipart::Multipart under a wake-driven executor. A class is (flavour, boundary, number of fields, for every cut and for the truncation point: region kind + part index + offset inside the region + content id and Content-Length flag of the field around it, delivery mode, Pending none/some/all, end kind, consumer program, limit, outcome shape = per field end kind and empty/non-empty, Multipart end kind, error kind, completed/hang/lost-wake/panic); it is non-trivial when at least one cut or the truncation point falls strictly inside a delimiter line (CRLF--boundary[--]CRLF), a header block or the preamble. distinct_nontrivial counts distinct non-trivial classes (hash set, measured).",
     );
     ev.set("samples", Value::Array(samples));
     ev.set("exhaustive", !is_capped);
@@ -454,10 +451,10 @@ fn main() {
     ev.violations = rep.unknown_count() as i64;
     ev.write();
     println!(
-        "C15 {}: {} executions, {} classes ({} non-trivial), {} violating executions in {} signature(s) ({} known), capped={}, {:.1}s",
+        "C15 {}: {} executions ({} with a cut/truncation inside a delimiter, header block or preamble: {} distinct classes), {} violating executions in {} signature(s) ({} known), capped={}, {:.1}s",
         args.tier,
         evaluations,
-        classes.len(),
+        nontrivial_evals,
         nontrivial.len(),
         violating,
         rep.distinct(),
@@ -488,9 +485,9 @@ fn run_unit(u: &Unit, loc: &mut Local) -> Result<(), String> {
             loc.truncated_wellformed += 1;
         }
         let (class, nt) = class_of(&b, t, p, &obs);
-        loc.classes.insert(class);
         if nt {
             loc.nontrivial.insert(class);
+            loc.nontrivial_evals += 1;
         }
         let kind = match (&obs.fin, &verdict) {
             (exec::Final::Completed, Ok(())) => {
